@@ -159,8 +159,8 @@ def changed_paths(st):
 # ------------------------------------------------------------------ C09
 def c09_scenarios(tier, seed):
     rnd = random.Random(seed)
-    shapes = {"single": {"ta": []}, "chain": {"ta": [], "tb": ["ta"], "tc": ["tb"]}, "fan": {"ta": [], "tb": [], "tc": ["ta", "tb"]},
-              "diamond": {"ta": [], "tb": ["ta"], "tc": ["ta"], "td": ["tb", "tc"]}}
+    shapes = {"single": {"alfa": []}, "chain": {"alfa": [], "bravo": ["alfa"], "carlo": ["bravo"]}, "fan": {"alfa": [], "bravo": [], "carlo": ["alfa", "bravo"]},
+              "diamond": {"alfa": [], "bravo": ["alfa"], "carlo": ["alfa"], "delta": ["bravo", "carlo"]}}
     flags = [[], ["--quiet"], ["--json"], ["--force"]]
     scen, meta = [], []
     n = 440 if tier == "quick" else 16000
@@ -212,7 +212,7 @@ def run_c09(ctx):
         steps = []
         for st in r["steps"]:
             text = st["stdout"] + st["stderr"]
-            steps.append(step_rec(st, extra={"mentioned": [t["name"] for t in mt["tasks"] if ('"%s"' % t["name"]) in text or (" %s " % t["name"]) in text]}))
+            steps.append(step_rec(st, extra={"mentioned": [t["name"] for t in mt["tasks"] if t["name"] in text]}))
         recs.append({"rel": "C09", "id": s["id"], "scen": {"tasks": mt["tasks"]}, "steps": steps})
     bad = judge_all(ctx, recs)
     st = selftest(ctx, [r for i, r in enumerate(recs) if i not in set(bad)], "C09")
@@ -551,11 +551,11 @@ def run_c20(ctx):
                     v["json_ok"] = False
             elif mode in ("show", "vars"):
                 lines = [l for l in out.split("\n") if l.strip()]
-                body = lines[2:] if len(lines) >= 2 else []
+                known = {t["name"] for t in mt["tasks"]} if mode == "show" else {x["name"] for x in mt["vars"]}
                 rows = []
-                for l in body:
+                for l in lines:
                     parts = l.split()
-                    if not parts:
+                    if not parts or parts[0] not in known:
                         continue
                     if mode == "show":
                         t = [t for t in mt["tasks"] if t["name"] == parts[0]]
@@ -646,7 +646,7 @@ def rebuild(ctx, rel, old, again):
     if rel == "C09":
         for k, st in enumerate(steps):
             text = st["stdout"] + st["stderr"]
-            new["steps"][k]["mentioned"] = [t["name"] for t in old["scen"]["tasks"] if ('"%s"' % t["name"]) in text]
+            new["steps"][k]["mentioned"] = [t["name"] for t in old["scen"]["tasks"] if t["name"] in text]
     if rel == "C13":
         cmds, ok = [], False
         try:
